@@ -1,9 +1,10 @@
 """C08 - MapSpec parsing, printing, shapes and index maps are mutually consistent.
 
 Specification: spec/MapSpecSem.tla (AST, WellFormed, token-level PrintMS/ParseMS, Shape, OutputKey, InputKeys,
-Rename, AddAxes and the laws).  Model-checking instance: spec/MC_MapSpecSem.tla (mechanism A, universe export).
+Rename, AddAxes, objects / histories and the laws).  Model-checking instance: spec/MC_MapSpecSem.tla (mechanism A,
+universe export; part his: mechanism B, histories).
 
-1. TLC enumerates the universes defined in MC_MapSpecSem (parts sem / syn / bad / tok, sharded over processes),
+1. TLC enumerates the universes defined in MC_MapSpecSem (parts sem / syn / bad / tok / his, sharded over processes),
    checks every law as an invariant per case and prints the expected results (one JSON line per case).
 2. This module builds the real `pipefunc.map.MapSpec` for every case and compares `str`, `from_string` (with
    whitespace rendered into every position the grammar tolerates), `shape`, `output_key` / `input_keys` for ALL
@@ -11,7 +12,13 @@ Rename, AddAxes and the laws).  Model-checking instance: spec/MC_MapSpecSem.tla 
 3. Where the specification leaves the outcome open ("rejected, or accepted as a well-formed MapSpec": token
    sequences outside the grammar, irregular specs) the MapSpecs that the code returned are written to a file and
    judged by TLC (part acc: `Violations`).
-4. Mechanism C: seeded random specs larger than the universes are run through the real code, the observations
+4. Histories (part his, a small state machine in MC_MapSpecSem): every order of "read the attributes", "shape + all
+   keys", `from_string(str(.))`, `add_axes`, `rename` up to a length bound is realised on ONE real object and the objects
+   derived from it; whatever was called before, every object of the history must answer as MapSpecSem.Observe says
+   for its AST (a MapSpec is an immutable value: caches inside the object may never show).
+5. An arrow count other than one (MapSpecSem.TextMustReject, ArrowMutants: chained `a -> b -> c`, trailing / leading /
+   doubled arrow, ...) is excepted from the leniency of 3: such texts must be rejected, with any whitespace.
+6. Mechanism C: seeded random specs larger than the universes are run through the real code, the observations
    are recorded and TLC judges them with the same operators (part rec).
 
 Python only renders tokens to characters, builds objects, calls the code and compares values with what TLC
@@ -65,7 +72,7 @@ TIERS: dict[str, dict[str, Any]] = {
     "thorough": {
         "const": {"MaxIn": 3, "SortFrom": 3, "MaxDim": 4, "BigIn": 3, "BigDim": 3, "MaxAxes": 6, "BigAxes": 6, "LawDim": 3,
                   "MutIn": 2, "MutRank": 3, "TokIn": 2, "TokRank": 2, "TokR": 3, "TokMod": 2,
-                  "HisIn": 2, "HisRank": 2, "HisR": 3, "HisLen": 3, "HisMod": 1},
+                  "HisIn": 2, "HisRank": 2, "HisR": 3, "HisLen": 3, "HisMod": 3},
         "shards": {"sem": 40, "syn": 8, "bad": 8, "tok": 8, "his": 16},
         "n_rec": 20000,
     },
